@@ -1,6 +1,8 @@
 import EncodingRs.Model.Decoder
 import EncodingRs.Model.Repl
 import EncodingRs.Model.L1
+import EncodingRs.Model.MaxLen
+import EncodingRs.Model.Meta
 import EncodingRs.Spec.Utf8
 /-!
 # The one-shot decode API of `Encoding` (lib.rs): `decode`, `decode_with_bom_removal`,
@@ -21,13 +23,20 @@ The control flow is modelled as written:
   form one `decode_to_string_without_replacement` call (= `Model.call`) whose
   `OutputFull` arm is `unreachable!()`.
 
-What is *not* modelled is the capacity arithmetic itself (`checked_add`,
-`checked_next_power_of_two`, `checked_min`, `max_utf8_buffer_length*`: the
-worst-case formulas belong to C07 and have no Lean model yet).  Its only effect
-on the result is *where* the decoder stops with `OutputFull`; as everywhere in
-this framework that is the free `Budget` parameter, and the theorems of
-`Thm/C11.lean` hold for every choice of it.  (The `.unwrap()`s of that arithmetic
-panic only for lengths near `usize::MAX / 3`, outside anything executable.)
+The functions of the first part (`decodeWithoutBomHandling`, …) leave out the
+capacity arithmetic: its only effect on the result is *where* the decoder stops
+with `OutputFull`; as everywhere in this framework that is the free `Budget`
+parameter, and the equality theorems of `Thm/C11.lean` hold for every choice of it.
+
+The second part (`…Cap`) **executes the capacity arithmetic as written**
+(`checked_add`, `checked_next_power_of_two`, `checked_min` / `min` over
+`max_utf8_buffer_length(_without_replacement)` of the REMAINING input in the
+decoder's current state — the formulas of `Gen.MaxLen`, re-translated from the Rust
+on every run —, the `.unwrap()` panics, `String::with_capacity`, `reserve`) and
+pairs every function with the predicate that says that the stop policy is
+*admissible for the capacities so computed* (`NoReplAdmissible`, `GrowAdmissible`,
+`DecodeAdmissible`): this is what makes `oneshot_no_unreachable` and termination
+for every admissible policy statable.  The third part is `Encoding::encode`.
 
 The validators are the simple recursive definitions (`Model.asciiValidUpTo`,
 `Model.iso2022JpAsciiValidUpTo`, `Spec.validUpTo`); that the real validators
@@ -37,8 +46,6 @@ Text is a list of scalar values.  The text of a `&str` made of bytes `bs`
 (`from_utf8_unchecked`, used for the borrow and for the copied prefix) is
 `strScalars bs`.
 
-`Encoding::encode` has no Lean model here (the encoder model is being written
-elsewhere); it is covered by the harness oracle only.
 -/
 namespace EncodingRs.Model.OneShot
 open EncodingRs EncodingRs.Model
@@ -208,5 +215,230 @@ def checkedMin : Option Nat → Option Nat → Option Nat
 /-- the capacity `decode_without_bom_handling` asks for, given the two worst-case answers -/
 def initialCapacity (validUpTo : Nat) (maxWithoutRepl maxWithRepl : Option Nat) : Option Nat :=
   checkedMin (checkedNextPowerOfTwo (maxWithoutRepl.map (validUpTo + ·))) (maxWithRepl.map (validUpTo + ·))
+
+
+/-! ## Part 2: the capacity arithmetic executed as written
+
+`String::with_capacity(n)` and `String::reserve(additional)` promise *at least* the
+capacity asked for; what the allocator grants on top is the `slack` parameter (one
+number per allocation, `[]` = exact), and every theorem is quantified over it.
+Their own failure modes (capacity above `isize::MAX`, allocation failure) are outside
+the model.  Bytes written so far are not re-stated: the model tracks the *spare*
+capacity `capacity() - len()` that `decode_to_string*` offers to the decoder. -/
+
+open EncodingRs.Gen.MaxLen in
+/-- `usize::next_power_of_two` as a release build computes it: the mathematical value if
+it fits `usize`, else `0` (a debug build panics instead) -/
+def nextPowerOfTwoU (n : Nat) : Nat :=
+  if nextPowerOfTwo n ≤ usizeMax then nextPowerOfTwo n else 0
+
+/-- what a function returns that can panic; `diverges` = the fuel of a model loop ran out
+(the Rust loops have no bound) -/
+inductive Outcome (α : Type)
+  | ok (a : α)
+  /-- `.unwrap()` of a capacity computation that overflowed `usize` -/
+  | panic
+  | diverges
+deriving DecidableEq, Repr
+
+def Outcome.map {α β : Type} (f : α → β) : Outcome α → Outcome β
+  | .ok a => .ok (f a)
+  | .panic => .panic
+  | .diverges => .diverges
+
+open EncodingRs.Gen.MaxLen in
+/-- the argument of `String::with_capacity` in the potentially-borrowable branch of
+`decode_without_bom_handling` (before the `.unwrap()`): `decoder` is fresh, `rem = bytes.len() - valid_up_to` -/
+def firstCapacity (v : Gen.Variant) (validUpTo rem : Nat) : Option Nat :=
+  let roundedWithoutReplacement :=
+    (U.addO validUpTo (variantMax .utf8NoRepl v (famOfVariant v).init rem)).map nextPowerOfTwoU
+  let withReplacement := U.addO validUpTo (variantMax .utf8 v (famOfVariant v).init rem)
+  checkedMin roundedWithoutReplacement withReplacement
+
+/-- the same in the other branch (no validated prefix, no `checked_add`) -/
+def firstCapacityNB (v : Gen.Variant) (len : Nat) : Option Nat :=
+  checkedMin ((variantMax .utf8NoRepl v (famOfVariant v).init len).map nextPowerOfTwoU)
+    (variantMax .utf8 v (famOfVariant v).init len)
+
+/-- The `loop` of `decode_without_bom_handling` with its capacities.  `spare` is
+`string.capacity() - string.len()` at the start of the round, i.e. the length of the
+buffer `decode_to_string` hands to `decode_to_utf8`.  On `OutputFull`:
+`needed = decoder.max_utf8_buffer_length(bytes.len() - total_read)` in the decoder's
+CURRENT state, `.unwrap()`, `string.reserve(needed)` — afterwards at least `needed`
+bytes are spare, and never fewer than before (`max`), plus the allocator's slack. -/
+def growLoopCap (v : Gen.Variant) (ifuel : Nat) :
+    Nat → (famOfVariant v).σ → List Nat → Nat → List Nat → List (List Budget) → Outcome (List Nat × Bool)
+  | 0, _, _, _, _, _ => .diverges
+  | fuel + 1, s, src, spare, slack, bs =>
+    match replLoop (famOfVariant v) .utf8 true ifuel s src (bs.headD []) with
+    | none => .diverges
+    | some t =>
+      match t.res with
+      | .inputEmpty => .ok (t.out, t.hadErrors)
+      | .outputFull =>
+        match variantMax .utf8 v t.st (src.length - t.read) with
+        | none => .panic                                  -- `needed.unwrap()`
+        | some needed =>
+          match growLoopCap v ifuel fuel t.st (src.drop t.read)
+              (max (spare - unitsOfList .utf8 t.out) needed + slack.headD 0) slack.tail bs.tail with
+          | .ok (o, e) => .ok (t.out ++ o, t.hadErrors || e)
+          | .panic => .panic
+          | .diverges => .diverges
+      | .malformed _ _ => .diverges  -- `CoderResult` has no such variant
+
+/-- `Encoding::decode_without_bom_handling` with its capacity arithmetic.
+`slack.head` belongs to `String::with_capacity`, the rest to the `reserve`s. -/
+def decodeWithoutBomHandlingCap (v : Gen.Variant) (bytes : List Nat) (fuel : Nat) (slack : List Nat)
+    (bs : List (List Budget)) : Outcome Res :=
+  if isPotentiallyBorrowable v then
+    let n := validUpTo v bytes
+    if n = bytes.length then
+      .ok ⟨strScalars bytes, false, true⟩
+    else
+      match firstCapacity v n (bytes.length - n) with
+      | none => .panic                                    -- `checked_min(…).unwrap()`
+      | some c =>
+        -- `extend_from_slice(&bytes[..valid_up_to])`: `n` of the `c + slack` bytes are used
+        (growLoopCap v fuel fuel (famOfVariant v).init (bytes.drop n) (c + slack.headD 0 - n) slack.tail bs).map
+          fun (o, e) => ⟨strScalars (bytes.take n) ++ o, e, false⟩
+  else
+    match firstCapacityNB v bytes.length with
+    | none => .panic
+    | some c =>
+      (growLoopCap v fuel fuel (famOfVariant v).init bytes (c + slack.headD 0) slack.tail bs).map
+        fun (o, e) => ⟨o, e, false⟩
+
+/-- `Encoding::decode` with the capacity arithmetic -/
+def decodeCap (v : Gen.Variant) (bytes : List Nat) (fuel : Nat) (slack : List Nat) (bs : List (List Budget)) :
+    Outcome (Res × Used) :=
+  match forBom bytes with
+  | some (u, bomLength) =>
+    (decodeWithoutBomHandlingCap (variantOfUsed v u) (bytes.drop bomLength) fuel slack bs).map fun r => (r, u)
+  | none => (decodeWithoutBomHandlingCap v bytes fuel slack bs).map fun r => (r, .nominal)
+
+/-- `Encoding::decode_with_bom_removal` with the capacity arithmetic -/
+def decodeWithBomRemovalCap (v : Gen.Variant) (bytes : List Nat) (fuel : Nat) (slack : List Nat)
+    (bs : List (List Budget)) : Outcome Res :=
+  decodeWithoutBomHandlingCap v (withoutOwnBom v bytes) fuel slack bs
+
+/-- the validated prefix of the without-replacement form (`self != UTF_8` there) -/
+def validUpToNoRepl (v : Gen.Variant) (bytes : List Nat) : Nat :=
+  if v = .iso2022Jp then iso2022JpAsciiValidUpTo bytes else asciiValidUpTo bytes
+
+open EncodingRs.Gen.MaxLen in
+/-- the argument of `String::with_capacity` in `decode_without_bom_handling_and_without_replacement`
+(before the `.unwrap()`), in either branch -/
+def noReplCapacity (v : Gen.Variant) (bytes : List Nat) : Option Nat :=
+  if isPotentiallyBorrowable v then
+    U.addO (validUpToNoRepl v bytes)
+      (variantMax .utf8NoRepl v (famOfVariant v).init (bytes.length - validUpToNoRepl v bytes))
+  else variantMax .utf8NoRepl v (famOfVariant v).init bytes.length
+
+/-- the part of that capacity that is spare when the decoder is called: the validated prefix has
+been copied into the `String` -/
+def noReplSpare (v : Gen.Variant) (bytes : List Nat) (c slack : Nat) : Nat :=
+  if isPotentiallyBorrowable v then c + slack - validUpToNoRepl v bytes else c + slack
+
+/-- the source of the single `decode_to_string_without_replacement` call -/
+def noReplInput (v : Gen.Variant) (bytes : List Nat) : List Nat :=
+  if isPotentiallyBorrowable v then bytes.drop (validUpToNoRepl v bytes) else bytes
+
+/-- `Encoding::decode_without_bom_handling_and_without_replacement` with its capacity arithmetic:
+`panic` = the `.unwrap()` of the capacity; otherwise as `decodeWithoutBomHandlingAndWithoutReplacement`. -/
+def decodeWithoutBomHandlingAndWithoutReplacementCap (v : Gen.Variant) (bytes : List Nat) (budget : Budget) :
+    Outcome NoRepl :=
+  if v = .utf8 then
+    if Spec.validUpTo bytes = bytes.length then .ok (.ret (some (strScalars bytes, true))) else .ok (.ret none)
+  else if isPotentiallyBorrowable v then
+    let n := validUpToNoRepl v bytes
+    if n = bytes.length then .ok (.ret (some (strScalars bytes, true)))
+    else
+      match noReplCapacity v bytes with
+      | none => .panic
+      | some _ =>
+        let r := call (famOfVariant v) .utf8 (famOfVariant v).init (bytes.drop n) true budget
+        match r.res with
+        | .inputEmpty => .ok (.ret (some (strScalars (bytes.take n) ++ r.out, false)))
+        | .malformed _ _ => .ok (.ret none)
+        | .outputFull => .ok .unreachable
+  else
+    match noReplCapacity v bytes with
+    | none => .panic
+    | some _ =>
+      let r := call (famOfVariant v) .utf8 (famOfVariant v).init bytes true budget
+      match r.res with
+      | .inputEmpty => .ok (.ret (some (r.out, false)))
+      | .malformed _ _ => .ok (.ret none)
+      | .outputFull => .ok .unreachable
+
+/-! ## Part 3: `Encoding::encode`
+
+A `&str` is the list of its UTF-8 bytes; `Utf8Source` reads it as `Model.items8` does.
+`output_encoding == UTF_8` / `== ISO_2022_JP` are tests on the variant of the output encoding
+(`Thm.C11.variant_identifies`).  The `Vec` is tracked by `capacity()` and `len()`:
+`encode_from_utf8_to_vec` offers `capacity - len` bytes to `encode_from_utf8` (`Model.encRepl`, whose
+control flow depends on that number through `NCR_EXTRA`). -/
+
+structure EncRes where
+  bytes : List Nat
+  hadUnmappables : Bool
+  /-- `Cow::Borrowed` (then the slice is the argument's own bytes) -/
+  borrowed : Bool
+deriving DecidableEq, Repr
+
+open EncodingRs.Gen.MaxLen in
+/-- The `loop` of `encode`.  One round is one `encoder.encode_from_utf8_to_vec(&string[total_read..], &mut vec, true)`
+with the stop budgets `bs.head` of its inner raw calls.  On `OutputFull`:
+`needed = max_buffer_length_from_utf8_if_no_unmappables(string.len() - total_read)`,
+`rounded = checked_add(vec.capacity(), needed).unwrap().next_power_of_two()`,
+`vec.reserve_exact(rounded - vec.len())`. -/
+def encodeLoop (v : Gen.Variant) (ifuel : Nat) :
+    Nat → (efamOfVariant v).σ → List Nat → Nat → Nat → List Nat → List (List Budget) → Outcome (List Nat × Bool)
+  | 0, _, _, _, _, _, _ => .diverges
+  | fuel + 1, s, src, cap, len, slack, bs =>
+    match encRepl (efamOfVariant v) (canEncodeEverything v) Gen.ncrExtra false true (cap - len) ifuel s src
+        (bs.headD []) with
+    | none => .diverges
+    | some t =>
+      match t.res with
+      | .inputEmpty => .ok (t.out, t.hadUnmappables)
+      | .outputFull =>
+        match U.addO cap (encMaxIfNoUnmappables false v (src.length - t.read)) with
+        | none => .panic                                    -- `checked_add(vec.capacity(), needed).unwrap()`
+        | some sum =>
+          let rounded := nextPowerOfTwoU sum
+          let len' := len + t.out.length
+          -- `rounded - vec.len()` underflows only if `next_power_of_two` wrapped to 0: debug panic /
+          -- release: `reserve_exact` of an absurd amount panics with "capacity overflow"
+          if rounded < len' then .panic else
+          match encodeLoop v ifuel fuel t.st (src.drop t.read) (max cap rounded + slack.headD 0) len'
+              slack.tail bs.tail with
+          | .ok (o, e) => .ok (t.out ++ o, t.hadUnmappables || e)
+          | .panic => .panic
+          | .diverges => .diverges
+      | .unmappable _ => .diverges  -- `CoderResult` has no such variant
+
+open EncodingRs.Gen.MaxLen in
+/-- `Encoding::encode`, given the variant `vo` of `self.output_encoding()` -/
+def encodeV (vo : Gen.Variant) (bytes : List Nat) (fuel : Nat) (slack : List Nat) (bs : List (List Budget)) :
+    Outcome EncRes :=
+  if vo = .utf8 then .ok ⟨bytes, false, true⟩                 -- `Cow::Borrowed(string.as_bytes())`
+  else
+    let n := validUpToNoRepl vo bytes                         -- ISO-2022-JP: its validator, else ASCII
+    if n = bytes.length then .ok ⟨bytes, false, true⟩
+    else
+      match U.addO n (encMaxIfNoUnmappables false vo (bytes.length - n)) with
+      | none => .panic                                        -- `checked_add(…).unwrap()`
+      | some c0 =>
+        -- `Vec::with_capacity(c0.next_power_of_two())`, `extend_from_slice(&bytes[..valid_up_to])`
+        (encodeLoop vo fuel fuel (efamOfVariant vo).init (bytes.drop n)
+            (nextPowerOfTwoU c0 + slack.headD 0) n slack.tail bs).map
+          fun (o, e) => ⟨bytes.take n ++ o, e, false⟩
+
+/-- `Encoding::encode` of the encoding with index `i` in `Gen.encodings`: the result and the index of
+the encoding reported as used (`output_encoding`) -/
+def encode (i : Nat) (bytes : List Nat) (fuel : Nat) (slack : List Nat) (bs : List (List Budget)) :
+    Outcome (EncRes × Nat) :=
+  (encodeV (Meta.variantAt (Meta.outputEncoding i)) bytes fuel slack bs).map fun r => (r, Meta.outputEncoding i)
 
 end EncodingRs.Model.OneShot
